@@ -165,7 +165,7 @@ core.register("C19", [
     Facet("structural", None, check_structural, enum=enum_structural,
           rule="Swap(l, r), Copy(n), Discard(n) for all l, r, n <= 4 permute "
           "/ duplicate / delete their inputs as a whole"),
-    Facet("naturality", naturality_cases, check_naturality, n_quick=500,
+    Facet("naturality", naturality_cases, check_naturality, n_quick=1000,
           shards_quick=2, rule="naturality of swap, copy and discard and the "
           "counit law on the outputs of generated diagrams"),
 ], selftests=[selftest], rule=RULE, assumptions=[
